@@ -402,6 +402,93 @@ def gen(rng, tier):
     # CRC transliteration
     for n in [0, 1, 2, 3, 4, 17, 100]:
         out.append(Case("scte.crc " + hx(L.g_bytes(rng, n)), kind="crc", theorem="C09_crc"))
+    out += gen_alias(rng, mult, [b for _, b in base])
+    return out
+
+
+# ------------------------------------------------------------------ a long-lived caller (scte.hist, notes/aliasing.md)
+def mid_desc_ops(rng, n=None):
+    """a clean descriptor with a multiple-UPID list of n entries"""
+    n = rng.choice([2, 3, 3, 4]) if n is None else n
+    mid = [[rng.choice([1, 8, 9, 0x0E]), L.g_bytes(rng, rng.choice([1, 2, 3, 8]))] for _ in range(n)]
+    return [K(0, rng.randrange(1 << 32)), K(11, 1), K(12, 1), K(5, 13), K(17, mid), K(1, rng.choice(L.SEG_TYPES)),
+            K(7, rng.randrange(256)), K(8, rng.randrange(256))], n
+
+
+def own_tail(rng, nd, nmid):
+    """steps whose arguments come from the SAME object's getters, read-backs between modifiers, UpdateData twice with a
+    shrinking setter in between; nd = number of descriptors, nmid = MID entries of descriptor 0 (0 = no MID there)"""
+    t = []
+    for _ in range(rng.randrange(2, 7)):
+        k = rng.randrange(9)
+        if k == 0 and nd and nmid:        # SetMID(own entries permuted / some dropped / a fresh one in front or behind)
+            sel = list(range(nmid)); rng.shuffle(sel)
+            if rng.random() < 0.3:
+                sel = sel[:rng.randrange(1, nmid + 1)]
+            if rng.random() < 0.4:
+                sel.insert(rng.choice([0, len(sel)]), [rng.choice([1, 8, 9]), L.g_bytes(rng, rng.choice([1, 4]))])
+            t.append(K(9, 0, K(32, sel)))
+            nmid = len(sel)
+        elif k == 1 and nd and nmid:      # write through one MID entry, then hand the same entries back
+            t.append(K(9, 0, K(20, rng.randrange(nmid), L.g_bytes(rng, rng.choice([0, 1, 5])))))
+            t.append(K(9, 0, K(32, list(reversed(range(nmid))))))
+        elif k == 2 and nd:               # SetComponents(own Components()) after setting some
+            i = rng.randrange(nd)
+            cs = [[rng.randrange(256), rng.choice(L.PTS_EDGE + [rng.randrange(L.T33)])] for _ in range(rng.randrange(1, 4))]
+            sel = list(range(len(cs))); rng.shuffle(sel)
+            t += [K(9, i, K(11, 0)), K(9, i, K(18, cs)), K(9, i, K(33, sel))]
+        elif k == 3 and nd > 1:           # SetDescriptors(own Descriptors() reordered / one dropped)
+            sel = list(range(nd)); rng.shuffle(sel)
+            if rng.random() < 0.3:
+                sel = sel[:-1]
+            if 0 not in sel or sel.index(0) != 0:
+                nmid = 0                  # descriptor 0 is now another one
+            nd = len(sel)
+            t.append(K(10, sel))
+        elif k == 4:
+            t.append(K(11))               # SetCommandInfo(own CommandInfo())
+        elif k == 5 and nd:               # SetUPID(own UPID()) on a single-UPID descriptor, then a shorter one
+            i = rng.randrange(nd)
+            if i == 0:
+                nmid = 0
+            t += [K(9, i, K(5, 8)), K(9, i, K(6, L.g_bytes(rng, 8))), K(9, i, K(34)), K(7), K(9, i, K(6, L.g_bytes(rng, 3))), K(9, i, K(34))]
+        elif k == 6:                      # times between modifiers: PTS() is read after each
+            p = L.g_pts(rng)
+            t += [K(1, p), K(2, (p + rng.choice([0, 1, 90000])) % L.T33), K(1, L.g_pts(rng))]
+        elif k == 7:                      # encode, shrink the message, encode again (Data() of the first call is kept)
+            t += [K(7), rng.choice([K(6, []), K(4, 0), K(5, [0, []])]), K(7)]
+        else:
+            t.append(K(7))
+    t.append(K(7))
+    return t
+
+
+def gen_alias(rng, mult, sections):
+    out = []
+    def add(start, ops, kind, th):
+        out.append(Case("scte.hist %s %s" % (start, fmt_val(ops)), kind=kind, theorem=th))
+    for _ in range(160 * mult):
+        # from CreateSCTE35: a clean history whose descriptor 0 carries a MID, then the tail
+        ops = clean_history(rng)
+        d0, nmid = mid_desc_ops(rng)
+        others = [clean_desc_ops(rng) for _ in range(rng.choice([0, 1, 2]))]
+        ops = [o for o in ops if o[0] not in (6, 7)] + [K(6, [d0] + others)]
+        add("[ ]", ops + own_tail(rng, 1 + len(others), nmid), "hist-own-args", "C09_set_through_descriptor")
+    for b in sections[:90 * mult]:
+        # from a decoded canonical section (its own descriptors, MID lists and components)
+        nd = 3
+        add("[ %s ]" % hx(b), own_tail(rng, nd, rng.choice([0, 2, 3])), "hist-own-args-decoded", "C09_set_through_descriptor")
+    for _ in range(60 * mult):
+        add("[ ]", toggle_history(rng) + [K(7)] + toggle_history(rng)[-3:] + [K(7)], "hist-toggle", "C09_setter_getter")
+    # deciding = every UpdateData of the history runs on a `normal` state (ScteNormalB.isnormal, hypothesis of
+    # C09_encode_canonical); the setter/getter part of the views holds for every state
+    rep = vlib.run_model(["scte.histnormal " + c.line.split(" ", 1)[1] for c in out])
+    for c, r in zip(out, rep):
+        nrm = (r == "1")
+        c.decides = nrm
+        c.nontrivial = nrm
+        if not nrm:
+            c.kind += "-not-normal"
     return out
 
 
@@ -459,7 +546,7 @@ def oracle(c, real, model):
 
 
 def case_of_line(line, kind):
-    dec = not kind.startswith("wild")
+    dec = not kind.startswith("wild") and not kind.endswith("-not-normal")
     return Case(line, kind=kind, decides=dec, nontrivial=dec, theorem="C09")
 
 
